@@ -18,6 +18,7 @@ structure Elem where
   valueNone : Bool          -- `_get_elem_value` gives None
   creator : Option String   -- `some value` when elem.name == "Private Creator"
   transKeys : Option (List String)  -- keys of the dict its translator returns (`none`: falsy / raised)
+  customIgnored : Bool := false     -- a user-supplied ignore rule returns True for the element
 deriving DecidableEq, Repr
 
 structure Translator where
@@ -69,6 +70,7 @@ def ruleByName : String → Elem → Bool
   | "ignore_pixel_data" => ignorePixel
   | "ignore_overlay_data" => ignoreOverlay
   | "ignore_color_lut_data" => ignoreLut
+  | "custom" => fun e => e.customIgnored
   | _ => fun _ => false
 
 def ignored (rules : List String) (e : Elem) : Bool := rules.any fun r => ruleByName r e
